@@ -251,6 +251,8 @@ class Lib:
         if name in GRAPH_CLASSES and not args and not kwargs:
             ex.used_lib.add(f"{name}() -> empty graph")
             return empty_graph(name)
+        if name == "Independencies" and not args and not kwargs:
+            return Obj("Independencies", {"independencies": Coll("list", IA, None, items=[])})
         if name in ("MarkovNetwork", "UndirectedGraph") and len(args) == 1 and not kwargs:
             # MarkovNetwork(ebunch): empty undirected graph + add_edges_from(ebunch); requires no self loops
             g = empty_graph(name, directed=False)
@@ -266,8 +268,13 @@ class Lib:
             ex.used_lib.add(f"{name}(ebunch) -> undirected graph on the listed edges")
             return g
         if name == "IndependenceAssertion" and len(args) == 3:
-            es = [ex.as_coll(a, st, Atom) for a in args]
-            es = [e.mem if e.mem is not None else empty_set(Atom) for e in es]
+            es = []
+            for a in args:
+                if isinstance(a, Scalar) and a.z.sort() == Atom:
+                    es.append(z3.Store(empty_set(Atom), a.z, True))  # a single name stands for [name]
+                else:
+                    c = ex.as_coll(a, st, Atom)
+                    es.append(c.mem if c.mem is not None else empty_set(Atom))
             # assumed contract of the constructor: raises ValueError unless event1 and event2 are non-empty
             ex.oblige(st, z3.And(nonempty(es[0], Atom), nonempty(es[1], Atom)), "call.IndependenceAssertion.events-nonempty")
             ex.assumed.add("IndependenceAssertion(e1,e2,e3) stores frozenset(e_i) (constructor contract assumed; requires e1, e2 non-empty)")
